@@ -114,3 +114,21 @@ PROPS["C11"] = {
         "note": "Trusted: gosym executor, z3. Two genuine defects found by this check were repaired (see known_findings.json 'fixed').",
     },
 }
+
+PROPS["C13"] = {
+    "level": "model_checking",
+    "jobs": [
+        {"name": "expr", "pkg": "goa.design/goa/v3/expr", "pkgdir": "expr", "pkgname": "expr", "harness_dir": "expr",
+         "files": ["zz_verif_c13.go"], "quick": r"^VerifC13_", "thorough": r"^VerifC13T?_", "shards": {"HashIffEqual": 6, "DupIndependent": 4}},
+    ],
+    "bounds": {"quick": {"permutation": "3 attributes / 3 union values, all 6 orders, symbolic one-letter names", "iff": "pairs from 6 shape families (primitive, user type, array, map elem, map key, object) with symbolic field names/kinds/type names, all 8 flag vectors",
+                         "cyclic": "self-recursive user type (direct and through an array)", "dup": "nested user types with validations/meta on attribute, array element, map key; optional self reference; 9 mutators x every attribute of the copy"}},
+    "assumptions": ["map iteration order is explored as insertion vs reverse order (verifMapOrder); natively the replay repeats the call 64 times"],
+    "outside": ["attribute names containing the delimiter characters of the hash format ('-', '/', ...): collisions such as {a:String,b:Int} vs {\"a/string-b\":Int} are known and not covered by the bound",
+                "hash '<=' direction on cyclic graphs under ignoreNames (partial hash strings, DESIGN.md C13)", "depth > 3, more than 3 attributes",
+                "leaf cells Dup shares by design (Values, *float64 bounds, meta value slices, Bases, References, UserExamples, DefaultValue)"],
+    "manifest": {
+        "text": "Bounded model checking of the real expr.Hash/hash*/sorted/Equal and Dup/DupAtt/dupper/ValidationExpr.Dup/MetaExpr.Dup/Object.Set..: permutation invariance for objects and unions with symbolic names under all 8 flag vectors, independence from map iteration order, Hash(A)=Hash(B) <=> reference structural equality (written from Hash's doc comment) on pairs of acyclic graphs from 6 shape families, termination/repeatability/equality on recursive types, and for Dup: equal dump, disjoint skeleton (attributes, objects, validations, user types) and original unchanged after any of 9 goa mutators is applied to any attribute of the copy.",
+        "note": "Trusted: gosym executor, z3; sort.Slice modelled as insertion sort calling the real less closure. Two genuine defects found by this check were repaired (known_findings.json 'fixed').",
+    },
+}
